@@ -64,6 +64,9 @@ def SchemaStep(info, step):
 def answer(out):
     """the model's answer in comparable form"""
     if "ok" in out:
+        if isinstance(out["ok"], dict) and "hyp" in out["ok"]:
+            # fitGuards: the hypotheses of `delete_total` are used relationally only (`check_fit_guards`)
+            return {k: v for k, v in out["ok"].items() if k != "hyp"}
         return out["ok"]
     if out.get("err") == "raises":
         return RAISES
@@ -128,9 +131,10 @@ def tie_replace_step(ctx, info, doc, f, t, sl, reqs, metas):
     replay = {"schema": info.name, "doc": doc.to_json(), "from": f, "to": t, "slice": sl.to_json()}
     st, step = outcome(lambda: replace_step(doc, f, t, sl))
     if st == "hang":
-        ctx.count("replace_step kind:hang (not compared)")
-        return
-    if st != "ok":
+        # the loop of Fitter.fit does not end: the model must say so (`outOfFuel` is exact, Props/C11.lean
+        # `fitLoop_outOfFuel_exact`)
+        exp, kind = {"err": "outOfFuel"}, "hang"
+    elif st != "ok":
         exp, kind = RAISES, "raises"
     elif step is None:
         exp, kind = ["none"], "none"
@@ -144,6 +148,100 @@ def tie_replace_step(ctx, info, doc, f, t, sl, reqs, metas):
     reqs.append({"op": "replaceStep", "s": info.lean_id, "doc": info.node(doc), "from": f, "to": t, "slice": info.slice(sl)})
     metas.append(("replaceStep", dict(replay, kind=kind, real=None if st != "ok" or step is None else step.to_json()), exp))
     ctx.count("replace_step kind:" + kind)
+    return st
+
+
+def term_guard(sl):
+    """lean/PM/Fitter.lean `Slice.termGuard`: the top-level content ends in a non-leaf node, or is all leaf / text nodes and
+    the slice is closed on both sides"""
+    n = sl.content.child_count
+    if n and not sl.content.last_child.is_leaf:
+        return True
+    return all(sl.content.child(i).is_leaf for i in range(n)) and sl.open_start == 0 and sl.open_end == 0
+
+
+def slice_wf(sl):
+    """lean/PM/Replace.lean `Slice.wf`: the open depths stay within the first-child / last-child chains of non-leaf nodes"""
+    def spine(frag, last):
+        d = 0
+        while frag.child_count:
+            n = frag.last_child if last else frag.first_child
+            if n.is_leaf:
+                break
+            d, frag = d + 1, n.content
+        return d
+    return sl.open_start <= spine(sl.content, False) and sl.open_end <= spine(sl.content, True)
+
+
+def tie_fit_guards(ctx, info, doc, f, t, sl, st, reqs, metas):
+    """the guards of the totality theorems of Props/C11.lean, exactly (the finding class `partial_node_class`, the
+    termination guard, slice well-formedness, determinism of the automata) together with the class of the model's answer;
+    `st` = outcome class of the real `replace_step` on the same request.  Relational part (`check_fit_guards`): guard true
+    => the real code did not raise / did return."""
+    from .findings import partial_node_class
+    replay = {"schema": info.name, "doc": doc.to_json(), "from": f, "to": t, "slice": sl.to_json(), "real": st}
+    exp = {"partial": partial_node_class(sl), "term": term_guard(sl), "wf": slice_wf(sl), "det": True,
+           "model": "ok" if st == "ok" else "outOfFuel" if st == "hang" else "raises"}
+    reqs.append({"op": "fitGuards", "s": info.lean_id, "doc": info.node(doc), "from": f, "to": t, "slice": info.slice(sl)})
+    metas.append(("fitGuards", replay, exp))
+    ctx.count("fit guards: partial=%s term=%s wf=%s" % (exp["partial"], exp["term"], exp["wf"]))
+
+
+def check_fit_guards(ctx, replay, out):
+    """relational: with the *model's* guards true, the real replace_step neither raised nor hung"""
+    g = out.get("ok")
+    if not isinstance(g, dict):
+        return
+    st = replay["real"]
+    if g.get("det") and g.get("wf") and not g.get("partial"):
+        ctx.count("fit guards: no-raise guard holds")
+        if st not in ("ok", "hang"):
+            ctx.mismatch("fitGuards:guard-true-but-raises", replay, st, g)
+    if g.get("det") and g.get("term"):
+        ctx.count("fit guards: termination guard holds")
+        if st == "hang":
+            ctx.mismatch("fitGuards:term-guard-true-but-hangs", replay, st, g)
+    h = g.get("hyp")
+    if isinstance(h, dict):
+        # `delete_total` / `insertInline_total` (Props/C11.lean): with their hypotheses true, replace_step with the empty
+        # slice / a closed slice of leaf nodes returned
+        which = "delete_total" if h.get("empty") else "insertInline_total"
+        if g.get("det") and h.get("fillers") and h.get("valid") and h.get("attrs") and not h.get("topTextblock") \
+                and (h.get("empty") or h.get("wrapOK")) and replay["from"] <= replay["to"]:
+            ctx.count("fit guards: %s hypotheses hold" % which)
+            if st != "ok":
+                ctx.mismatch("fitGuards:%s-hypotheses-true-but-not-returned" % which, replay, st, g)
+        else:
+            ctx.count("fit guards: %s hypotheses fail (%s)" % (which, ",".join(
+                k for k in sorted(h) if k != "empty" and h[k] != (k != "topTextblock"))))
+
+
+def tie_divergence_example(ctx, reqs, metas):
+    """the slice of Props/C11.lean's divergence example (`<il("x"), "ab">(0,0)` into `doc(hr)`, schema doc: "hr | p",
+    inline il: "text*"): the real replace_step must not return within the allowance and the model must answer outOfFuel"""
+    from prosemirror.model import Schema
+    from .codec import SchemaInfo
+    from . import core
+    spec = {"nodes": {"doc": {"content": "hr | p"}, "hr": {}, "il": {"inline": True, "content": "text*", "group": "inline"},
+                      "text": {"group": "inline"}, "p": {"content": "inline*"}}, "marks": {}}
+    schema = Schema(spec)
+    info = SchemaInfo(schema, "random")
+    ctx.driver.add_schema(info)
+    doc = schema.node("doc", None, [schema.node("hr")])
+    src = schema.node("doc", None, [schema.node("p", None, [schema.node("il", None, [schema.text("x")]), schema.text("ab")])])
+    sl = src.slice(1, 6)
+    try:
+        core.call_with_alarm(lambda: replace_step(doc, 1, 1, sl), 0.5)
+        st = "ok"
+    except core.Timeout:
+        st = "hang"
+    except Exception:  # noqa: BLE001
+        st = "internal"
+    ctx.count("divergence example: real replace_step " + st)
+    replay = {"schema": "random", "spec": spec, "doc": doc.to_json(), "from": 1, "to": 1, "slice": sl.to_json(), "real": st}
+    reqs.append({"op": "replaceStep", "s": info.lean_id, "doc": info.node(doc), "from": 1, "to": 1, "slice": info.slice(sl)})
+    metas.append(("replaceStep", dict(replay, kind="hang", real=None), {"err": "outOfFuel"} if st == "hang" else RAISES))
+    tie_fit_guards(ctx, info, doc, 1, 1, sl, st, reqs, metas)
 
 
 def tie_fill_wrap(ctx, info, rng, frags, reqs, metas, per_state=2):
@@ -294,4 +392,4 @@ def tie_close_fragment(ctx, info, sl, reqs, metas):
 
 
 EXACT_OPS = ("fitsTrivially", "replaceStepTrivial", "deleteRangeTarget", "deleteRangeStep", "replaceStep", "fillBeforeO",
-             "findWrappingO", "replaceRangePlan", "replaceRangeWithPlan", "replaceRangeWithTarget", "closeSlice")
+             "findWrappingO", "replaceRangePlan", "replaceRangeWithPlan", "replaceRangeWithTarget", "closeSlice", "fitGuards")
